@@ -25,6 +25,7 @@ func init() {
 			// free only through the release path, and the free set is replaced only by the pending-aware reload
 			ruleFreeSetEntry(c, "C10.R7")
 			ruleAllocatePrefersFreeList(c, "C10.R8")
+			c09R9(c, "C10.R9") // released pages are only reusable if the backend actually records them
 		},
 		CHA: func(c *Ctx) { ruleFreeSetEntry(c, "C10.R7") },
 	})
